@@ -43,6 +43,7 @@ func runC18(c *Ctx) {
 	r.Rule("C18.R1", "GuardedBy: SCTPTransport.dataChannels and dataChannelIDsUsed are only accessed with the same transport's lock held (write-locked for writes); in generateAndSetDataChannelID the lookup, the not-found test, the insert and the hand-out use the same key and share one write-locked critical section", 12)
 	r.Rule("C18.R2", "allocator, explored for every uint16 value of the id variable and every DTLSRole constant: handed-out ids are even iff role == client and odd for server, never 65535; the inserted key is the handed-out id; the id cannot change after the hand-out; nil is returned only after a hand-out; callers pass the transport's own role(), which yields only client/server; MaxChannels() is the constant sctpMaxChannels", 7)
 	r.Rule("C18.R3", "DataChannel.id is written only by the constructor literal and in open; the write in open is dominated by id == nil and by the success of generateAndSetDataChannelID, stores the generated id, and lies behind the single-entry gate (d.sctpTransport tested and set in one d.mu critical section; sctpTransport written nowhere else)", 3)
+	r.Rule("C18.R5", "a remotely created channel keeps the pointer it is given as its id: the variable whose address is stored as DataChannelParameters.ID in the accept loop is declared inside the loop body (or is fresh in a helper), so a later accept cannot rewrite the id an earlier channel reports (same rule as C19.R3, restricted to the ID field)", 1)
 	r.Rule("C18.R4", "every append to SCTPTransport.dataChannels is accompanied, in the same critical section, by the insertion of the channel's id into dataChannelIDsUsed unless ID() is nil; the used set is never shrunk or replaced", 3)
 	r.NotCovered = append(r.NotCovered,
 		"collisions or parity of application-chosen ids (DataChannelInit.ID, ORTC DataChannelParameters.ID)",
@@ -75,6 +76,7 @@ func runC18(c *Ctx) {
 	x.r12alloc()
 	x.r3()
 	x.r4()
+	c19R3(c, "C18.R5", "ID") // c19b.go
 
 	if c.Thorough {
 		c05Config386(c, func(c2 *Ctx) { runC18(c2) })
